@@ -91,6 +91,7 @@ func ruleExpansion(w *World, r *Report) {
 		reach := simulate(f.Blocks[0], nil, orc)
 		nH, nV, appends := 0, 0, 0
 		bad := ""
+		unknownTarget := false
 		for _, b := range f.Blocks {
 			if !reach[b] {
 				continue
@@ -109,13 +110,17 @@ func ruleExpansion(w *World, r *Report) {
 				}
 				if isH(g) {
 					nH++
-					if t := denotes(c.Call.Args[3], 0); !okTarget(t) {
+					if t := denotes(c.Call.Args[3], 0); t == "?" {
+						unknownTarget = true
+					} else if !okTarget(t) {
 						bad = "the horizontal axis is brought to the wrong zoom (target denotes " + t + ")"
 					}
 				}
 				if isV(g) {
 					nV++
-					if t := denotes(c.Call.Args[2], 0); !okTarget(t) {
+					if t := denotes(c.Call.Args[2], 0); t == "?" {
+						unknownTarget = true
+					} else if !okTarget(t) {
 						bad = "the vertical axis is brought to the wrong zoom (target denotes " + t + ")"
 					}
 				}
@@ -146,7 +151,9 @@ func ruleExpansion(w *World, r *Report) {
 			}
 		}
 		key := fn + " / " + names[rl]
-		if bad != "" {
+		if bad == "" && unknownTarget {
+			r.add("MAXSEL", key, pos, Undecided, "the target zoom of a zoom change could not be related to HZoom() / VZoom() of the argument")
+		} else if bad != "" {
 			st := Violated
 			if strings.Contains(bad, "is not raised with") {
 				st = Undecided // the zoom change may be done by other means: nothing wrong was seen
